@@ -11,6 +11,19 @@ Schedules: TLC proves (bounded) that the repaired ordering yields the sequential
 Thread counts are always explicit and READ BACK (cimaged11_omp_get_max_threads; in the hooks build the number of
         per-thread logs must equal the request): a request that does not take effect is a machinery error.
         Small cases run at 1, 2, 3, 5, 7, 16, 64 threads (64 > pixels of every small case).
+OpenMP configurations (LocalMaxPar: requested team NT vs delivered `team`, RangesTile over both): the thread sweep
+        (stress images, strips, a share of the TLC cases; dirty label / work buffers) is repeated in CHILD PROCESSES
+        started under environments in which the runtime delivers another team than was requested (OMP_ENVS:
+        OMP_NUM_THREADS=8 OMP_THREAD_LIMIT=3; OMP_NUM_THREADS=16 OMP_DYNAMIC=true; OMP_THREAD_LIMIT=2 with
+        cimaged11_omp_set_num_threads(1..64); limit 1; a nesting list; ...), with and without a call of the setter;
+        every result must equal the sequential one.  The hooks build runs under the limiting environments too: the
+        number of per-thread logs IS the delivered team; every pending pixel must lie in exactly one logged range and
+        every log must pass TraceWalk.
+Call histories (LocalMaxCalls.tla: Stand, NoAlias): every sequence of 3 (thorough: 4) wrapper calls - sparse_localmax,
+        sparse_smooth, smooth + localmax on the smoothed signal, sparse_connected_pixels, SparseScan.lmlabel with and
+        without smoothing - over three frames (two of EQUAL nnz) and two scans of equal frame sizes, on several seeded
+        concrete pools; every array handed out is kept and ALL of them are re-judged against the definitions after
+        every later call, np.shares_memory between them (and with the inputs) must be false (harness/c13_calls.py).
 Harness-only instance families (the model only compares values and walks pointers, so it is covariant under order
 preserving value maps, shapes and coordinate offsets; expectations are the independent numpy / python definitions
 `definition`, `sparse_definition`, `c13_replay.expected_sparse`, `smooth16_definition`):
@@ -30,6 +43,7 @@ import os, sys, json, subprocess, time
 import numpy as np
 import common
 import c13_replay
+import c13_calls
 
 PROP = "C13"
 RACE_ID = "C13-walk-race"
@@ -67,9 +81,14 @@ def lm_cfg(ns, nf, family, V, P):
                                         "SparseAgrees", "Emit"])
 
 
-def par_cfg(n, nt, fixed, reread, invs=("Correct", "FlagImpliesLabel", "RangesTile")):
-    return common.write_cfg(os.path.join(common.scratch(), "lmpar_%d_%d_%s_%s.cfg" % (n, nt, fixed, reread)),
-                            constants={"N": n, "NT": nt, "FIXED": fixed, "REREAD": reread, "POISON": 99},
+def par_cfg(n, nt, fixed, reread, invs=("Correct", "FlagImpliesLabel", "RangesTile"), teams=None, blocks="team"):
+    """teams = the team sizes the runtime may deliver for the request nt (default: exactly nt); blocks = which of the
+    two sizes cuts the per-thread blocks ("team": the code; "max": the variant that uses omp_get_max_threads())"""
+    teams = set(teams) if teams else {nt}
+    return common.write_cfg(os.path.join(common.scratch(), "lmpar_%d_%d_%s_%s_%s_%s_%s.cfg" % (
+        n, nt, fixed, reread, "-".join(str(t) for t in sorted(teams)), blocks, "-".join(invs))),
+                            constants={"N": n, "NT": nt, "FIXED": fixed, "REREAD": reread, "POISON": 99,
+                                       "TEAMS": teams, "BLOCKS": '"%s"' % blocks},
                             invariants=list(invs))
 
 
@@ -266,11 +285,119 @@ def run_gap_patterns(chk, tier, mods):
     chk.notes["sparse_gap_patterns"] = n
 
 
-def hook_traces(chk, tier):
-    """deterministic binding of LocalMaxPar's thread program to the code: the hooks build logs every thread's
-    writes in program order; TLC validates each thread's log against TraceWalk.tla"""
-    shadow = common.build_shadow("hooks")
-    rng = np.random.default_rng(common.seed() + 131)
+# OpenMP environments of the child processes: (environment, thread requests).  A request 0 = the setter is not called,
+# the team size comes from the environment alone; "all" = cimaged11_omp_set_num_threads(1..64).  In every one of them but
+# the last the runtime DELIVERS another team than omp_get_max_threads() says for some requests.
+OMP_ENVS = [({"OMP_NUM_THREADS": "8", "OMP_THREAD_LIMIT": "3"}, [0, 1, 2, 3, 5, 8, 16, 64]),
+            ({"OMP_NUM_THREADS": "16", "OMP_DYNAMIC": "true"}, [0, 2, 3, 7, 16, 64]),
+            ({"OMP_THREAD_LIMIT": "2"}, "all"),
+            ({"OMP_NUM_THREADS": "6", "OMP_THREAD_LIMIT": "1"}, [0, 2, 6, 64]),
+            ({"OMP_NUM_THREADS": "4,2", "OMP_THREAD_LIMIT": "5", "OMP_DYNAMIC": "true"}, [0, 3, 4, 5, 9, 64]),
+            ({"OMP_NUM_THREADS": "1"}, [0, 4])]
+HOOK_ENVS = [({"OMP_NUM_THREADS": "8", "OMP_THREAD_LIMIT": "3"}, [0, 2, 3, 7, 64]),
+             ({"OMP_THREAD_LIMIT": "2"}, [0, 2, 3, 7, 64]),
+             ({"OMP_NUM_THREADS": "16", "OMP_DYNAMIC": "true"}, [0, 3, 64])]
+OMP_VARS = ("OMP_NUM_THREADS", "OMP_THREAD_LIMIT", "OMP_DYNAMIC", "OMP_SCHEDULE", "OMP_NESTED", "OMP_MAX_ACTIVE_LEVELS",
+            "OMP_PROC_BIND", "OMP_PLACES", "GOMP_CPU_AFFINITY")
+
+
+def env_tag(envx):
+    return " ".join("%s=%s" % kv for kv in sorted(envx.items())) if envx else "ordinary"
+
+
+def omp_env(shadow, envx):
+    env = dict(os.environ, PYTHONPATH=shadow, NUMBA_CACHE_DIR=os.path.join(common.scratch(), "numba"), OMP_WAIT_POLICY="passive")
+    for v in OMP_VARS + ("IMAGED11_VERIF_TRACE",):
+        env.pop(v, None)
+    env.update(envx or {})
+    return env
+
+
+def openmp_environments(chk, tier, small_cases):
+    """OpenMP configurations: the result may not depend on how many threads the runtime really delivers.  The thread sweep
+    (stress images, strips; dirty buffers) and a share of the TLC-emitted small cases run in child processes started under
+    OMP_ENVS (normal build); judged here against the steepest-ascent definition / the specification's labels"""
+    shadow = common.build_shadow("normal")
+    rng = np.random.default_rng(common.seed() + 1399)
+    imgs = [(n, im) for n, im in stress_images("quick", rng)]
+    for (a, b) in [(3, 17), (17, 3), (3, 200), (345, 3), (4, 64)] + ([] if tier == "quick" else [(211, 5), (5, 300), (3, 3)]):
+        imgs += strip_images(a, b, rng)[:4]
+    if tier != "quick":
+        imgs += [(n, im) for n, im in stress_images("thorough", rng) if im.size <= 20000]
+    keep = []
+    for n, im in imgs:
+        dd = definition(im)
+        if dd is not None:
+            keep.append((n, im, dd[0], dd[1]))
+    d = os.path.join(common.scratch(), "ompenv")
+    os.makedirs(d, exist_ok=True)
+    here = os.path.dirname(os.path.dirname(os.path.abspath(__file__)))
+    done = {}
+    nviol = 0
+    plans = {}
+
+    def launch(ke):
+        envx, reqs = OMP_ENVS[ke]
+        arrs = {"names": np.array([n for n, _, _, _ in keep])}
+        plan = []
+        for k, (n, im, exp, nexp) in enumerate(keep):
+            if reqs == "all":       # the full sweep 1..64 on a third of the images (rotating with the seed), a short one elsewhere
+                r = list(range(0, 65)) if (((k + common.seed()) % 3 == 0 and im.size <= 5000) or im.size < 700) else [0, 3, 64]
+            else:
+                r = list(reqs)
+            arrs["img_%d" % k] = im
+            arrs["requests_%d" % k] = np.array(r)
+            plan.append(r)
+        plans[ke] = plan
+        ppath = os.path.join(d, "plan_%d.npz" % ke)
+        opath = os.path.join(d, "out_%d.npz" % ke)
+        np.savez(ppath, **arrs)
+        return subprocess.run([common.PY, os.path.join(here, "c13_env_child.py"), ppath, opath], env=omp_env(shadow, envx),
+                              stdout=subprocess.PIPE, stderr=subprocess.PIPE, text=True, timeout=1800), opath
+    from concurrent.futures import ThreadPoolExecutor
+    with ThreadPoolExecutor(3) as ex:          # the children side by side (most of them are limited to 1-3 threads)
+        ran = list(ex.map(launch, range(len(OMP_ENVS))))
+    for ke, (envx, reqs) in enumerate(OMP_ENVS):
+        tag = env_tag(envx)
+        plan = plans[ke]
+        p, opath = ran[ke]
+        if p.returncode == 3:
+            raise common.MachineryError("vacuity: child under %s: %s" % (tag, p.stderr[-600:]))
+        if p.returncode != 0 or not os.path.exists(opath):
+            raise common.MachineryError("C13 child under %s failed rc=%s: %s" % (tag, p.returncode, p.stderr[-1500:]))
+        out = np.load(opath)
+        ncalls = 0
+        for k, (n, im, exp, nexp) in enumerate(keep):
+            labs, npks, maxt = out["lab_%d" % k], out["npk_%d" % k], out["maxthr_%d" % k]
+            for j, r in enumerate(plan[k]):
+                chk.case(("ompenv", ke, n, im.shape, r))
+                for b in (0, 1):
+                    ncalls += 1
+                    lab = labs[j, b]
+                    if int(npks[j, b]) == nexp and np.array_equal(lab, exp):
+                        continue
+                    nviol += 1
+                    if nviol <= 8:
+                        chk.violation("[OpenMP environment %s] localmaxlabel(%s %dx%d), %s (cimaged11_omp_get_max_threads() = %d), "
+                                      "%s: %d pixels differ from the sequential steepest-ascent result (count %d, definition %d)"
+                                      % (tag, n, im.shape[0], im.shape[1],
+                                         "%d threads requested" % r if r else "team size left to the environment", int(maxt[j]),
+                                         "constant buffer fills" if b == 0 else "buffers as another call left them",
+                                         int((lab != exp).sum()), int(npks[j, b]), nexp),
+                                      {"omp_env": envx, "stress": n, "shape": list(im.shape), "threads": r, "seed": common.seed(),
+                                       "first_diffs": np.argwhere(lab != exp)[:10].tolist()})
+        chk.traces += 1
+        done[tag] = {"images": len(keep), "calls": ncalls, "max_threads_at_start": int(out["start_max_threads"][0])}
+    chk.notes["openmp_environments"] = done
+    chk.notes["openmp_environment_mismatches"] = nviol
+    # the TLC-emitted small cases (exact labels of the specification) under the two limiting environments
+    if small_cases:
+        for ke, envx in enumerate([OMP_ENVS[2][0], OMP_ENVS[0][0]]):
+            sel = small_cases[ke::2]
+            replay_child(chk, sel, "env%d" % ke, "normal", envx)
+
+
+def hook_images(tier, rng):
     imgs = []
     shapes = [(5, 6), (8, 9), (12, 12), (9, 14)] if tier == "quick" else [(5, 6), (8, 9), (12, 12), (9, 14), (16, 21), (25, 13), (30, 30)]
     for (a, b) in shapes:
@@ -287,30 +414,34 @@ def hook_traces(chk, tier):
             if definition(im) is not None:
                 keep.append((n, im))
                 nstrip += 1
-    d = os.path.join(common.scratch(), "hooktraces")
-    os.makedirs(d, exist_ok=True)
+    return keep, nstrip
 
-    def threads_of(im):
-        return [2, 3, 4, 7, 64] if im.size <= 60 else [2, 3, 4, 7]
+
+def hook_launch(shadow, keep, threads_of, envx, idx):
+    """one child of the hooks build under the OpenMP environment envx (None = the ordinary one) -> (process, directory)"""
+    d = os.path.join(common.scratch(), "hooktraces_%d" % idx)
+    os.makedirs(d, exist_ok=True)
     arrs = {"names": np.array([n for n, _ in keep])}
     for k, (n, im) in enumerate(keep):
         arrs["img_%d" % k] = im
         arrs["threads_%d" % k] = np.array(threads_of(im))
     np.savez(os.path.join(d, "cases.npz"), **arrs)
-    env = dict(os.environ, PYTHONPATH=shadow, NUMBA_CACHE_DIR=os.path.join(common.scratch(), "numba"), OMP_WAIT_POLICY="passive")
-    env.pop("IMAGED11_VERIF_TRACE", None)
     here = os.path.dirname(os.path.dirname(os.path.abspath(__file__)))
-    p = subprocess.run([common.PY, os.path.join(here, "c13_hooks_child.py"), os.path.join(d, "cases.npz"), d], env=env,
-                       stdout=subprocess.PIPE, stderr=subprocess.PIPE, text=True, timeout=1800)
+    p = subprocess.run([common.PY, os.path.join(here, "c13_hooks_child.py"), os.path.join(d, "cases.npz"), d],
+                       env=omp_env(shadow, envx), stdout=subprocess.PIPE, stderr=subprocess.PIPE, text=True, timeout=1800)
+    return p, d
+
+
+def hook_collect(chk, ran, keep, threads_of, envx, recs, meta, st):
+    """the thread logs of one child are appended to recs / meta.  Ordinary environment: one log per requested thread
+    (vacuity guard).  Other environments: the number of logs IS the delivered team."""
+    tag = env_tag(envx)
+    p, d = ran
+    st["children"] += 1
     if p.returncode == 3:
-        raise common.MachineryError("vacuity: hooks child: %s" % p.stderr[-600:])
+        raise common.MachineryError("vacuity: hooks child (%s): %s" % (tag, p.stderr[-600:]))
     if p.returncode != 0:
-        raise common.MachineryError("hooks child failed: %s" % p.stderr[-1500:])
-    nmore = 0
-    nmodel = 0
-    nruns = 0
-    recs = []
-    meta = {}
+        raise common.MachineryError("hooks child (%s) failed: %s" % (tag, p.stderr[-1500:]))
     for k, (name, im) in enumerate(keep):
         exp, nexp = definition(im)
         ns, nf = im.shape
@@ -322,34 +453,86 @@ def hook_traces(chk, tier):
             lvals = {}
             evs = {}
             ranges = {}
+            divs = {}
             for line in open(path):
                 w = line.split()
                 if w[0] == "P":
                     lvals[int(w[1])] = int(w[2])
                 elif w[0] == "T":
                     ranges[int(w[1])] = (int(w[3]), int(w[4]))
+                    divs[int(w[1])] = int(w[2])
                     evs.setdefault(int(w[1]), [])
                 elif w[0] == "E":
                     evs[int(w[1])].append([int(w[2]), int(w[3]) + 1, int(w[4])])
             N = ns * nf
-            # vacuity guard: the parallel region really ran with the requested number of threads (one log per thread)
-            if sorted(ranges) != list(range(nt)):
-                raise common.MachineryError("vacuity: %d threads requested for %s %dx%d, the walk region logged threads %s"
-                                            % (nt, name, ns, nf, sorted(ranges)))
-            nmore += int(nt > N)
-            nruns += 1
-            # (noted, not judged: the ranges are those of LocalMaxPar's Lo / Hi, which tile the image - RangesTile)
-            nmodel += int(all(ranges[t] == ((N * t) // nt, (N * (t + 1)) // nt) for t in range(nt)))
+            team = len(ranges)
+            case = {"hooks": True, "image": name, "shape": [ns, nf], "threads": nt, "img": im.tolist(), "omp_env": envx or {}}
+            if envx is None:
+                # vacuity guard: the parallel region really ran with the requested number of threads (one log per thread)
+                if sorted(ranges) != list(range(nt)):
+                    raise common.MachineryError("vacuity: %d threads requested for %s %dx%d, the walk region logged threads %s"
+                                                % (nt, name, ns, nf, sorted(ranges)))
+                st["more"] += int(nt > N)
+                st["runs"] += 1
+            else:
+                if team == 0 or sorted(ranges) != list(range(team)):
+                    raise common.MachineryError("hooks child (%s): %s %dx%d request %d: the walk region logged threads %s"
+                                                % (tag, name, ns, nf, nt, sorted(ranges)))
+                e = st["env"].setdefault(tag, {"runs": 0, "delivered_team_smaller_than_requested": 0, "teams": {}})
+                asked = nt if nt else int(str((envx or {}).get("OMP_NUM_THREADS", "0")).split(",")[0])
+                e["runs"] += 1
+                e["delivered_team_smaller_than_requested"] += int(asked > 0 and team < asked)
+                e["teams"]["%d->%d" % (asked, team)] = e["teams"].get("%d->%d" % (asked, team), 0) + 1
+            # (noted, not judged: the ranges are those of LocalMaxPar's Lo / Hi cut with the DELIVERED team size)
+            st["model"] += int(all(ranges[t] == ((N * t) // team, (N * (t + 1)) // team) and divs[t] == team for t in range(team)))
             tgt = [0 if lvals[x] == 0 else x + off[lvals[x]] + 1 for x in range(N)]
+            # RangesTile on what the property needs: every pending pixel lies in the range of exactly one thread that RAN
+            owners = np.zeros(N, np.int64)
+            for (lo, hi) in ranges.values():
+                owners[max(lo, 0):max(hi, 0)] += 1
+            pending = np.array([t != 0 for t in tgt])
+            if (owners[pending] != 1).any() and st["nviol"] < 8:
+                st["nviol"] += 1
+                x = int(np.flatnonzero(pending & (owners != 1))[0])
+                chk.violation("[OpenMP environment %s] localmaxlabel (hooks build) %s %dx%d, %s: the ranges %s of the %d threads "
+                              "that ran (divisor logged: %s) do not tile the image: pending pixel %d is in the range of %d threads "
+                              "(LocalMaxPar RangesTile over the delivered team)"
+                              % (tag, name, ns, nf, "%d threads requested" % nt if nt else "team size left to the environment",
+                                 [list(ranges[t]) for t in sorted(ranges)][:8], team, sorted(set(divs.values())), x, int(owners[x])),
+                              case)
             final = [int(v) for v in exp.ravel()]
             lab = np.load(os.path.join(d, "labels_%d_%d.npy" % (k, nt)))
-            if not np.array_equal(lab, exp):
-                chk.violation("localmaxlabel (hooks build) %s %dx%d with %d threads differs from the sequential result" % (name, ns, nf, nt),
-                              {"hooks": True, "image": name, "shape": [ns, nf], "threads": nt, "img": im.tolist()})
+            if not np.array_equal(lab, exp) and st["nviol"] < 8:
+                st["nviol"] += 1
+                chk.violation("[OpenMP environment %s] localmaxlabel (hooks build) %s %dx%d, %s (%d ran), differs from the sequential "
+                              "result at %d pixels" % (tag, name, ns, nf, "%d threads requested" % nt if nt else
+                                                       "team size left to the environment", team, int((lab != exp).sum())), case)
             for tid, (lo, hi) in ranges.items():
-                rid = "%s_%dx%d_nt%d_t%d" % (name, ns, nf, nt, tid)
+                rid = "%s_%dx%d_nt%d_t%d%s" % (name, ns, nf, nt, tid, "" if envx is None else "_env%d" % st["children"])
                 recs.append({"id": rid, "N": N, "lo": lo + 1, "hi": hi + 1, "tgt": tgt, "final": final, "ev": evs[tid]})
-                meta[rid] = {"hooks": True, "image": name, "shape": [ns, nf], "threads": nt, "thread": tid, "img": im.tolist()}
+                meta[rid] = dict(case, thread=tid)
+
+
+def hook_traces(chk, tier):
+    """deterministic binding of LocalMaxPar's thread program to the code: the hooks build logs every thread's
+    writes in program order; TLC validates each thread's log against TraceWalk.tla.  Ordinary environment and the
+    limiting OpenMP environments HOOK_ENVS (delivered team = number of logs)."""
+    shadow = common.build_shadow("hooks")
+    rng = np.random.default_rng(common.seed() + 131)
+    keep, nstrip = hook_images(tier, rng)
+    recs = []
+    meta = {}
+    st = {"children": 0, "more": 0, "runs": 0, "model": 0, "env": {}, "nviol": 0}
+
+    def threads_of(im):
+        return [2, 3, 4, 7, 64] if im.size <= 60 else [2, 3, 4, 7]
+    jobs = [(None, threads_of)] + [(envx, (lambda im, reqs=reqs: [r for r in reqs if r != 64 or im.size <= 60])) for envx, reqs in HOOK_ENVS]
+    from concurrent.futures import ThreadPoolExecutor
+    with ThreadPoolExecutor(2) as ex:
+        ran = list(ex.map(lambda kj: hook_launch(shadow, keep, kj[1][1], kj[1][0], kj[0]), enumerate(jobs)))
+    for (envx, thr), r in zip(jobs, ran):
+        hook_collect(chk, r, keep, thr, envx, recs, meta, st)
+    nmore, nruns = st["more"], st["runs"]
     path = os.path.join(common.scratch(), "trace_walk.ndjson")
     with open(path, "w") as f:
         for r in recs:
@@ -364,23 +547,32 @@ def hook_traces(chk, tier):
     if len(verdicts) != len(recs):
         raise common.MachineryError("TraceWalk: %d verdicts for %d thread logs\n%s" % (len(verdicts), len(recs), res.stdout[-1500:]))
     nev = 0
+    nrej = 0
     for r in recs:
         v = verdicts[r["id"]]
         nev += len(r["ev"])
         chk.case(("walk", r["id"]), nontrivial=len(r["ev"]) > 0)
         chk.traces += 1
         if not v["ok"]:
-            nxt = r["ev"][v["consumed"]] if v["consumed"] < len(r["ev"]) else None
-            chk.violation("thread write log rejected by TraceWalk: %s (thread log %s, after %d events, next %s)" % (
-                v["why"], r["id"], v["consumed"], nxt), meta[r["id"]])
+            nrej += 1
+            if nrej <= 12:
+                nxt = r["ev"][v["consumed"]] if v["consumed"] < len(r["ev"]) else None
+                chk.violation("thread write log rejected by TraceWalk: %s (thread log %s, after %d events, next %s)" % (
+                    v["why"], r["id"], v["consumed"], nxt), meta[r["id"]])
     chk.notes["hook_thread_logs"] = len(recs)
     chk.notes["hook_write_events"] = nev
     chk.notes["hook_runs_more_threads_than_pixels"] = nmore
     chk.notes["hook_strip_images"] = nstrip
     chk.notes["hook_runs_thread_count_confirmed_by_logs"] = nruns
-    chk.notes["hook_runs_ranges_equal_LocalMaxPar_LoHi"] = nmodel
+    chk.notes["hook_runs_ranges_equal_LocalMaxPar_LoHi"] = st["model"]
+    chk.notes["hook_openmp_environments"] = st["env"]
     if nmore < 4 and not chk.violations:
         raise common.MachineryError("vacuity: no hooks run with more threads than pixels")
+    if not chk.violations:
+        lim = [t for t in st["env"] if "OMP_THREAD_LIMIT" in t]
+        if len(lim) < 2 or any(st["env"][t]["delivered_team_smaller_than_requested"] < 10 for t in lim):
+            raise common.MachineryError("vacuity: the limiting OpenMP environments did not deliver smaller teams than requested: %s"
+                                        % st["env"])
     return [r for r in recs if verdicts[r["id"]]["ok"]]
 
 
@@ -750,9 +942,15 @@ def smooth_routes(chk, tier, mods):
         raise common.MachineryError("vacuity: direct sparse_smooth family not exercised: %s" % st)
 
 
-def replay_asan(chk, cases, tag):
-    shadow = common.build_shadow("asan")
-    env = common.asan_env(shadow)
+def replay_child(chk, cases, tag, flavour="asan", envx=None):
+    """the small cases in a child process: the sanitizer build, or the normal build under an OpenMP environment envx"""
+    shadow = common.build_shadow(flavour)
+    if flavour == "asan":
+        env = common.asan_env(shadow)
+        label = "[sanitizer build] "
+    else:
+        env = omp_env(shadow, envx)
+        label = "[OpenMP environment %s] " % env_tag(envx)
     d = common.scratch()
     cpath = os.path.join(d, "lmcases_%s.jsonl" % tag)
     opath = os.path.join(d, "lmout_%s.json" % tag)
@@ -760,8 +958,8 @@ def replay_asan(chk, cases, tag):
         for c in cases:
             f.write(json.dumps(c) + "\n")
     here = os.path.dirname(os.path.dirname(os.path.abspath(__file__)))
-    p = subprocess.run([common.PY, os.path.join(here, "c13_replay.py"), cpath, opath], env=env,
-                       stdout=subprocess.PIPE, stderr=subprocess.PIPE, text=True, timeout=3000)
+    p = subprocess.run([common.PY, os.path.join(here, "c13_replay.py"), cpath, opath] + ([] if flavour == "asan" else ["dense"]),
+                       env=env, stdout=subprocess.PIPE, stderr=subprocess.PIPE, text=True, timeout=3000)
     out = json.load(open(opath)) if os.path.exists(opath) else {"n": 0, "problems": []}
     san = ("AddressSanitizer" in p.stderr) or ("runtime error:" in p.stderr) or p.returncode in (66, 67)
     if san:
@@ -774,19 +972,93 @@ def replay_asan(chk, cases, tag):
             last, rep.strip().splitlines()[0] if rep.strip() else "abort"),
             {"sanitizer_stderr": rep, "near_cases": cases[max(0, last - 1):last + 2], "asan": True})
     elif p.returncode != 0:
-        raise common.MachineryError("asan replay subprocess failed rc=%s: %s" % (p.returncode, p.stderr[-1500:]))
+        raise common.MachineryError("%sreplay subprocess failed rc=%s: %s" % (label, p.returncode, p.stderr[-1500:]))
     nrep = 0
     for pr in out.get("problems", []):
         for msg in pr["problems"]:
             if msg.startswith(c13_replay.MVLOW_TAG):
                 report(chk, msg, pr["case"])
-            elif nrep < 10:
+            elif nrep < (10 if flavour == "asan" else 4):
                 nrep += 1
-                chk.violation("[sanitizer build] " + msg, pr["case"])
+                chk.violation(label + msg, pr["case"] if envx is None else dict(pr["case"], omp_env=envx))
     if out.get("machinery"):
-        raise common.MachineryError("vacuity (sanitizer build): %s" % out["machinery"])
-    chk.notes["asan_cases"] = chk.notes.get("asan_cases", 0) + out.get("n", 0)
-    chk.notes["asan_small_dense_threads"] = out.get("stats", {}).get("small_dense_threads", {})
+        raise common.MachineryError("vacuity (%s): %s" % (label.strip(), out["machinery"]))
+    if flavour == "asan":
+        chk.notes["asan_cases"] = chk.notes.get("asan_cases", 0) + out.get("n", 0)
+        chk.notes["asan_small_dense_threads"] = out.get("stats", {}).get("small_dense_threads", {})
+    else:
+        chk.notes.setdefault("openmp_environment_small_cases", {})[env_tag(envx)] = {
+            "cases": out.get("n", 0), "threads": out.get("stats", {}).get("small_dense_threads", {})}
+        chk.traces += out.get("n", 0)
+
+
+def replay_asan(chk, cases, tag):
+    replay_child(chk, cases, tag, "asan")
+
+
+def call_histories(chk, tier, mods):
+    """LocalMaxCalls.tla: Stand / NoAlias for every history of wrapper calls (TLC), the variant with a class-level workspace
+    must violate Stand (vacuity), and every emitted history is executed on the real wrappers (c13_calls.run_history)"""
+    r = common.run_tlc("LocalMaxCalls", os.path.join(common.SPECS, "LocalMaxCalls_ws.cfg"), workers=4, timeout=600)
+    chk.add_tlc("LocalMaxCalls class-level workspace (expected: Stand violated)", r)
+    if "Stand" not in r.violated:
+        raise common.MachineryError("LocalMaxCalls: the class-level workspace variant no longer violates Stand (vacuity)")
+    cfg = "LocalMaxCalls_q.cfg" if tier == "quick" else "LocalMaxCalls_t.cfg"
+    res = common.run_tlc("LocalMaxCalls", os.path.join(common.SPECS, cfg), workers=16, timeout=1800, coverage=(tier != "quick"))
+    chk.add_tlc("LocalMaxCalls histories (%s)" % cfg, res)
+    if res.violated:
+        raise common.MachineryError("LocalMaxCalls model violates %s\n%s" % (res.violated, res.stdout[-1500:]))
+    hists = []
+    for line in sorted(res.printed):
+        try:
+            hists.append([(str(o), int(x)) for o, x in json.loads(line)["hist"]])
+        except ValueError:
+            raise common.MachineryError("unparsable LocalMaxCalls line: %s" % line[:200])
+    want = 16 ** (3 if tier == "quick" else 4)
+    if len(hists) != want:
+        raise common.MachineryError("LocalMaxCalls emitted %d histories, expected %d" % (len(hists), want))
+    rng = np.random.default_rng(common.seed() + 1717)
+    d = os.path.join(common.scratch(), "callhist")
+    os.makedirs(d, exist_ok=True)
+    pools = c13_calls.make_pools(rng, tier, d)
+    defs = {"sparse_definition": sparse_definition, "smooth16_definition": smooth16_definition}
+    stats = {}
+    per_pool = {}
+    nviol = 0
+    old = mods[0].cimaged11_omp_get_max_threads()
+    try:
+        c13_replay.set_threads(mods[0], 2)
+        for kp, pool in enumerate(pools):
+            # every history on the first pool; a seeded share on the others (the larger frames are the slower ones)
+            share = 1.0 if kp == 0 else ((0.15 if tier == "quick" else 0.1) if pool.frames[1][0][0] < 20 else
+                                         (0.06 if tier == "quick" else 0.02))
+            n = 0
+            for h in hists:
+                if share < 1.0 and rng.random() >= share:
+                    continue
+                n += 1
+                probs = c13_calls.run_history(h, pool, mods, defs, stats)
+                chk.case(("calls", pool.name, tuple(h)))
+                chk.traces += 1
+                if probs:
+                    nviol += 1
+                    if nviol <= 6:
+                        chk.violation("wrapper call history %s on pool '%s' (frames 1, 2 of equal nnz %d, frame 3 nnz %d; scans 11, 12 "
+                                      "of equal frame sizes): %s" % (
+                                          " ; ".join("%s(%d)" % c for c in h), pool.name, len(pool.frames[1][1]),
+                                          len(pool.frames[3][1]), " | ".join(probs[:3])),
+                                      {"call_history": [list(c) for c in h], "pool": pool.name, "seed": common.seed()})
+                if nviol > 200:
+                    break
+            per_pool[pool.name] = n
+    except c13_replay.ThreadsNotSet as e:
+        raise common.MachineryError("vacuity: %s" % e)
+    finally:
+        mods[0].cimaged11_omp_set_num_threads(old)
+    chk.notes["call_histories"] = dict(stats, histories_per_pool=per_pool, histories_failing=nviol)
+    if not chk.violations and (stats.get("consecutive_lm_calls_on_equal_nnz", 0) < 200 or stats.get("alias_pairs", 0) < 10000
+                               or stats.get("histories", 0) < want):
+        raise common.MachineryError("vacuity: call histories not exercised: %s" % stats)
 
 
 def run(tier, replay=None):
@@ -803,7 +1075,11 @@ def run(tier, replay=None):
                 "the sequential result; the stress images and a larger frame also go through the sparse kernel (listings: "
                 "full, interior, threshold, random, ascent-closed; every sign class of values; coordinates at the top of the "
                 "uint16 range) against the sparse definition, and sparse / dense partitions are compared on the real outputs "
-                "where the listing is closed under the ascent; sparse_smooth directly with exactly representable sums. "
+                "where the listing is closed under the ascent; sparse_smooth directly with exactly representable sums; "
+                "LocalMaxPar also with every delivered team 1..NT for the request NT, the dense sweep repeated in child "
+                "processes under OpenMP environments that deliver other teams than requested (normal and hooks build); "
+                "LocalMaxCalls enumerates every history of 3 (thorough 4) wrapper calls over 3 frames (two of equal nnz) and 2 "
+                "scans, each executed on seeded concrete pools with all results re-judged after every call. "
                 "non-trivial = image has an interior maximum; distinct = distinct image / (image, threads, repetition) / "
                 "(image, listing, value class, buffer fill)")
     chk.assumptions = ["property judged only on images whose every 3x3 block has a unique maximum (no equal-valued neighbours)",
@@ -885,22 +1161,45 @@ def run(tier, replay=None):
     chk.add_tlc("LocalMaxPar pinned ordering (expected: Correct violated)", r)
     if "Correct" not in r.violated:
         raise common.MachineryError("racy configuration no longer violates Correct (vacuity)")
+    # OpenMP configurations: the runtime delivers any team 1..NT for the request NT (also more requested than pixels)
+    for (n_, nt_) in ([(6, 3), (3, 5)] if tier == "quick" else [(6, 3), (3, 5), (7, 4), (4, 6)]):
+        r = common.run_tlc("LocalMaxPar", par_cfg(n_, nt_, True, True, teams=range(1, nt_ + 1)), workers=8, timeout=1800)
+        chk.add_tlc("LocalMaxPar repaired ordering N=%d NT=%d, delivered team 1..%d" % (n_, nt_, nt_), r)
+        if r.violated:
+            raise common.MachineryError("repaired ordering with a delivered team <= requested violates %s" % r.violated)
+    for inv in ("RangesTile", "Correct"):
+        r = common.run_tlc("LocalMaxPar", par_cfg(6, 3, True, True, invs=(inv,), teams=[2], blocks="max"), workers=4, timeout=900)
+        chk.add_tlc("LocalMaxPar blocks cut with the requested size, team 2 of 3 (expected: %s violated)" % inv, r)
+        if inv not in r.violated:
+            raise common.MachineryError("blocks cut with omp_get_max_threads() no longer violate %s (vacuity)" % inv)
     if tier == "thorough":
         r = common.run_tlc("LocalMaxPar", par_cfg(8, 3, True, True), workers=16, timeout=3000)
         chk.add_tlc("LocalMaxPar repaired ordering N=8 NT=3", r)
         if r.violated:
             raise common.MachineryError("repaired ordering violates %s" % r.violated)
-    run_gap_patterns(chk, tier, mods)
-    stress(chk, tier, cImageD11)
-    sparse_stress(chk, tier, mods)
-    smooth_routes(chk, tier, mods)
-    sparsescan_routes(chk, tier)
+    sect = chk.notes.setdefault("section_wall_s", {})
+
+    def timed(name, fn, *a):
+        t0 = time.time()
+        try:
+            return fn(*a)
+        finally:
+            sect[name] = round(time.time() - t0, 1)
+    timed("gap_patterns", run_gap_patterns, chk, tier, mods)
+    timed("stress", stress, chk, tier, cImageD11)
+    timed("sparse_stress", sparse_stress, chk, tier, mods)
+    timed("smooth_routes", smooth_routes, chk, tier, mods)
+    timed("sparsescan_routes", sparsescan_routes, chk, tier)
+    timed("call_histories", call_histories, chk, tier, mods)
+    timed("openmp_environments", openmp_environments, chk, tier, sel if tier == "quick" else [c for c in clean if rng.random() < 0.3])
     # (after the outcome-based families: a tree whose walk region does not run with the requested number of threads
     #  makes the hooks binding inapplicable - a machinery error - and must have been judged on its outcomes before)
-    hook_recs = hook_traces(chk, tier)
+    hook_recs = timed("hook_traces", hook_traces, chk, tier)
     chk.exhaustive = False
     if tier == "thorough":
         selftest(mods)
+    else:
+        selftest_calls(mods)
     selftest_walk(chk, hook_recs)
     return chk.finish()
 
@@ -952,7 +1251,10 @@ def run_replay(chk, mods, path):
     obj = json.load(open(path))
     case = obj["case"]
     chk.exhaustive = False
-    if "img" in case:
+    if "omp_env" in case and not case.get("hooks"):
+        openmp_environments(chk, chk.tier, [case] if "img" in case else [])
+        chk.sample({"replayed": "OpenMP environments"})
+    elif "img" in case:
         for idx in range(60):
             for p in c13_replay.run_case(case, mods, idx, threads=c13_replay.SMALL_THREADS[idx % len(c13_replay.SMALL_THREADS)]):
                 report(chk, p, case)
@@ -961,6 +1263,9 @@ def run_replay(chk, mods, path):
         chk.sample(case)
     elif case.get("asan"):
         replay_asan(chk, case.get("near_cases", []), "replay")
+    elif "call_history" in case:
+        call_histories(chk, chk.tier, mods)
+        chk.sample({"replayed": "wrapper call histories"})
     elif case.get("hooks"):
         hook_traces(chk, chk.tier)
         chk.sample({"replayed": "hook traces"})
@@ -982,8 +1287,47 @@ def run_replay(chk, mods, path):
     return chk.finish()
 
 
+def selftest_calls(mods):
+    """the call-history binding must reject (1) a perturbed expectation, (2) a wrapper layer whose sparse_localmax hands out a
+    cached array (two consecutive frames of equal nnz), and accept the same histories on the real wrappers"""
+    cImageD11, sparseframe = mods
+    rng = np.random.default_rng(5)
+    d = os.path.join(common.scratch(), "callhist_self")
+    os.makedirs(d, exist_ok=True)
+    pool = c13_calls.make_pools(rng, "quick", d)[0]
+    defs = {"sparse_definition": sparse_definition, "smooth16_definition": smooth16_definition}
+    hist = [("lm", 1), ("lm", 2), ("sm", 3)]
+    if c13_calls.run_history(hist, pool, mods, defs, {}):
+        return              # the tree under test already fails this history: nothing accepted to perturb
+    bad = dict(defs, sparse_definition=lambda img, m: (lambda r: (r[0] + (np.arange(len(r[0])) == 0), r[1]))(sparse_definition(img, m)))
+    pool.exp.clear()
+    if not c13_calls.run_history(hist, pool, mods, bad, {}):
+        raise common.MachineryError("selftest: call histories accept a perturbed expectation")
+    pool.exp.clear()
+
+    class Cached(object):
+        """sparseframe with a sparse_localmax that keeps its labels array between frames of equal nnz"""
+        ws = {}
+
+        def __getattr__(self, name):
+            return getattr(sparseframe, name)
+
+        def sparse_localmax(self, frame, label_name="localmax", data_name="intensity"):
+            if Cached.ws.get("nnz") != frame.nnz:
+                Cached.ws = {"nnz": frame.nnz, "labels": np.zeros(frame.nnz, "i")}
+            labels = Cached.ws["labels"]
+            n = cImageD11.sparse_localmaxlabel(frame.pixels[data_name], frame.row, frame.col, np.zeros(frame.nnz, np.float32),
+                                               np.zeros(frame.nnz, "i"), labels)
+            frame.set_pixels(label_name, labels, {"nlabel": n})
+            return n
+    probs = c13_calls.run_history(hist, pool, (cImageD11, Cached()), defs, {})
+    if not any("shares memory" in q for q in probs) or not any("no longer is" in q for q in probs):
+        raise common.MachineryError("selftest: a cached labels array between frames of equal nnz is not reported: %s" % probs)
+
+
 def selftest(mods=None):
     mods = mods or c13_replay.load_mods()
+    selftest_calls(mods)
     img = [0, 0, 0, 0, 0, 5, 1, 0, 0, 2, 9, 0, 0, 0, 0, 0]
     case = {"ns": 4, "nf": 4, "img": img, "lout": [0, 0, 0, 0, 0, 1, 1, 0, 0, 1, 1, 0, 0, 0, 0, 0], "npk": 1, "tiefree": 0}
     if c13_replay.run_case(dict(case), mods, 0):
